@@ -20,7 +20,7 @@ def run(ctx):
     ctx.assumptions += ['the critical value is abstracted by a real variable c: (a) the one-sided bound at L and the two-sided bound at 2L-1 are the same function of c, and the oracle is applied to q_one(L) = L resp. q_two(2L-1) = L; (b) bounds are monotone in c; (c) c >= 0 puts the point estimate inside',
                         'quantile producer: ranks are floor(p*n) capped at n-1 of the Wilson bounds p, monotone in p; the Wilson facts are lifted through this monotone map',
                         'K: result kind == confidence kind on the compiled code for all seven producers (harnesses shared with C11/C04/C05/C02/C03)']
-    core.run_kani_set(ctx, ['c10_', 'c11_harmonic_ci_mean_glue', 'c11_geometric_ci_mean_glue', 'c11_paired_ci_mean_delegates'], bound='arbitrary states', harness_timeout=900)
+    core.run_kani_set(ctx, ['c06_wilson_quantile_per_call', 'c06_critical_value_is_history_independent', 'c06_interval_bounds', 'c11_harmonic_ci_mean_glue', 'c11_geometric_ci_mean_glue', 'c11_paired_ci_mean_delegates'], bound='arbitrary states', harness_timeout=900)
     m = E.MEngine(ctx)
     if not m.ok:
         return
